@@ -135,7 +135,23 @@ class QuotientWorld(Scenario):
         return rows
 
     # ------------------------------------------------------------------ apply
+    hang_is_violation = False  # termination is C04's clause; elsewhere a call that does not return ends the run's claim
+
     def apply(self, step):
+        if self.hang_is_violation:
+            return self.apply_inner(step)
+        if not self.claim_open:
+            return "skip"
+        try:
+            return self.apply_inner(step)
+        except Violation as v:
+            if v.kind != "hang":
+                raise
+            self.claim_open = False
+            self.ctx.count("call_did_not_return")
+            return {"r": "hang"}
+
+    def apply_inner(self, step):
         ctx = self.ctx
         op = step["op"]
         f = self.f
